@@ -227,6 +227,8 @@ GENERIC = {
     "C03": dict(q=dict(soup_n=3000, mb_n=2500, trunc_n=200), t=dict(soup_n=40000, mb_n=30000, trunc_n=2000), events=True),
     "C04": dict(q=dict(soup_n=3000, lf_n=1200, mb_n=300), t=dict(soup_n=40000, lf_n=15000, mb_n=3000), events=True),
     "C05": dict(q=dict(soup_n=3000, lf_n=1200, mb_n=300), t=dict(soup_n=40000, lf_n=15000, mb_n=3000), events=False),
+    "C06": dict(q=dict(soup_n=5000, trunc_n=400, mb_n=500, case_n=300), t=dict(soup_n=60000, trunc_n=5000, mb_n=5000, case_n=3000), events=False),
+    "C07": dict(q=dict(soup_n=3000, trunc_n=300, mb_n=300, extra=dict(string_family=5000)), t=dict(soup_n=30000, trunc_n=3000, mb_n=3000, extra=dict(string_family=80000)), events="all"),
     "C09": dict(q=dict(soup_n=5000, trunc_n=600), t=dict(soup_n=60000, trunc_n=6000, corpus_trunc=400), events=False),
     "C10": dict(q=dict(soup_n=5000, trunc_n=800), t=dict(soup_n=60000, trunc_n=8000, corpus_trunc=400), events=False),
 }
@@ -243,12 +245,16 @@ RULES = {
 
 def run_generic(ctx):
     cfg = GENERIC[ctx.prop]
-    sizes = cfg["q"] if ctx.quick() else cfg["t"]
+    sizes = dict(cfg["q"] if ctx.quick() else cfg["t"])
+    extra = sizes.pop("extra", None)
     base_inputs(ctx, **sizes)
+    if extra:
+        for fam, n in extra.items():
+            ctx.add_cases(fam, getattr(gen, fam)(ctx.rng, n))
     pick_samples(ctx)
     cases = list(ctx.cases.values())
     for variant in ("dbg", "rel"):
-        ev = cfg["events"] and (variant == "dbg" or not ctx.quick())
+        ev = cfg["events"] == "all" or (cfg["events"] and (variant == "dbg" or not ctx.quick()))
         paths = run_variant(ctx, variant, cases, events=ev)
         mon = common.monitor(ctx.prop, paths, ctx.dir, workers_each=2, parallel=8)
         judge(ctx, variant, mon)
